@@ -102,7 +102,8 @@ static SPECS: &[Spec] = &[
     Spec { name: "arab", tag: tag(b"arab"), fam: Fam::Arabic, sub: Sub::None,
         // beh, shadda(33), fatha(30) kasra(32) damma(31), hamza above (MCM 230), hamza below (MCM 220),
         // madda above (230), subscript alef (220), Mende number mark U+1E8D0 (220, non-BMP), small high seen (MCM 230)
-        alpha: &[0x628, 0x651, 0x64E, 0x650, 0x64F, 0x654, 0x655, 0x653, 0x656, 0x1E8D0, ZWJ, ZWNJ, 0x6DC] },
+        // + combining long solidus overlay (ccc 1: a non-starter below every Arabic fixed-position class; shadda still moves in front of it)
+        alpha: &[0x628, 0x651, 0x64E, 0x650, 0x64F, 0x654, 0x655, 0x653, 0x656, 0x1E8D0, ZWJ, ZWNJ, 0x6DC, 0x338] },
     Spec { name: "mymr", tag: tag(b"mymr"), fam: Fam::Myanmar, sub: Sub::None,
         alpha: &[0x1000, 0x1037, 0x1039, 0x103A, 0x108D, 0x102B, 0x1036, 0x1D165, ZWJ, ZWNJ, 0x103B, 0x323] },
     Spec { name: "mym2", tag: tag(b"mym2"), fam: Fam::Myanmar, sub: Sub::None,
@@ -1117,7 +1118,7 @@ fn classification_sweep(acc: &Acc<'_>) -> Value {
 /// inside the groups so that stability is observable), in three input orders.
 fn arabic_patterns(acc: &Acc<'_>, max_total: usize) -> Value {
     let tag = tag(b"arab");
-    let low = ['\u{064E}', '\u{0618}']; // fatha, small fatha: both ccc 30
+    let low = ['\u{064E}', '\u{0618}', '\u{0338}', '\u{064B}']; // fatha, small fatha: both ccc 30; long solidus overlay: ccc 1; fathatan: ccc 27
     let high = ['\u{0652}', '\u{0653}', '\u{0657}', '\u{0654}']; // sukun 34, madda 230, inverted damma 230, hamza above 230 (MCM)
     let mut cases: Vec<(usize, usize, usize)> = Vec::new();
     for a in 0..=max_total {
@@ -1131,7 +1132,7 @@ fn arabic_patterns(acc: &Acc<'_>, max_total: usize) -> Value {
         .par_iter()
         .map(|&(a, b, c)| {
             let mut g: Vec<char> = Vec::with_capacity(a + b + c);
-            g.extend((0..a).map(|i| low[i % 2]));
+            g.extend((0..a).map(|i| low[i % 4]));
             g.extend(std::iter::repeat('\u{0651}').take(b));
             g.extend((0..c).map(|i| high[i % 4]));
             let mut k = 0;
